@@ -41,7 +41,10 @@ class HttpShard(ShardCMC):
         # that were found in the shard index (populate_minishard_dict fills
         # ro_minishard_dict, fetch_cmc_chunk consults minishard_dict).
         self.minishard_dict = self.ro_minishard_dict
-        assert self.can_read_cmc
+        if not self.can_read_cmc:
+            raise ShardedIOError(
+                f"Cannot find shard {self.shard_key_str} at {self.base_url} "
+                "(neither .shard nor .index/.data)")
 
     def file_exists(self, filepath):
         resp = self._session.head(f"{self.base_url}{filepath}")
